@@ -533,6 +533,7 @@ func (pp *partitionProducer) dispatch() {
 	if pp.leader != nil {
 		pp.brokerProducer = pp.parent.getBrokerProducer(pp.leader)
 		pp.parent.inFlight.Add(1) // we're generating a syn message; track it so we don't shut down while it's still inflight
+		verifGate("pp.syn", pp.topic, pp.partition)
 		pp.brokerProducer.input <- &ProducerMessage{Topic: pp.topic, Partition: pp.partition, flags: syn}
 	}
 
@@ -602,6 +603,7 @@ func (pp *partitionProducer) dispatch() {
 			msg.hasSequence = true
 		}
 
+		verifGate("pp.send", pp.topic, pp.partition)
 		pp.brokerProducer.input <- msg
 	}
 }
@@ -614,6 +616,7 @@ func (pp *partitionProducer) newHighWatermark(hwm int) {
 	// back to us and we can safely flush the backlog (otherwise we risk re-ordering messages)
 	pp.retryState[pp.highWatermark].expectChaser = true
 	pp.parent.inFlight.Add(1) // we're generating a fin message; track it so we don't shut down while it's still inflight
+	verifGate("pp.fin", pp.topic, pp.partition)
 	pp.brokerProducer.input <- &ProducerMessage{Topic: pp.topic, Partition: pp.partition, flags: fin, retries: pp.highWatermark - 1}
 
 	// a new HWM means that our current broker selection is out of date
@@ -636,6 +639,7 @@ func (pp *partitionProducer) flushRetryBuffers() {
 		}
 
 		for _, msg := range pp.retryState[pp.highWatermark].buf {
+			verifGate("pp.flush", pp.topic, pp.partition)
 			pp.brokerProducer.input <- msg
 		}
 
@@ -663,6 +667,7 @@ func (pp *partitionProducer) updateLeader() error {
 
 		pp.brokerProducer = pp.parent.getBrokerProducer(pp.leader)
 		pp.parent.inFlight.Add(1) // we're generating a syn message; track it so we don't shut down while it's still inflight
+		verifGate("pp.syn", pp.topic, pp.partition)
 		pp.brokerProducer.input <- &ProducerMessage{Topic: pp.topic, Partition: pp.partition, flags: syn}
 
 		return nil
@@ -691,6 +696,7 @@ func (p *asyncProducer) newBrokerProducer(broker *Broker) *brokerProducer {
 
 	// minimal bridge to make the network response `select`able
 	go withRecover(func() {
+		verifGate("bridge.take", "", broker.ID())
 		for set := range bridge {
 			request := set.buildRequest()
 
@@ -701,6 +707,7 @@ func (p *asyncProducer) newBrokerProducer(broker *Broker) *brokerProducer {
 				err: err,
 				res: response,
 			}
+			verifGate("bridge.take", "", broker.ID())
 		}
 		close(responses)
 	})
@@ -997,6 +1004,7 @@ func (p *asyncProducer) retryBatch(topic string, partition int32, pSet *partitio
 		return
 	}
 	bp := p.getBrokerProducer(leader)
+	verifGate("retryBatch.out", topic, partition)
 	bp.output <- produceSet
 }
 
@@ -1032,6 +1040,7 @@ func (p *asyncProducer) retryHandler() {
 		if buf.Length() == 0 {
 			msg = <-p.retries
 		} else {
+			verifGate("retry.feed", "", int32(buf.Length()))
 			select {
 			case msg = <-p.retries:
 			case p.input <- buf.Peek().(*ProducerMessage):
